@@ -19,6 +19,13 @@ func vPrivKey(name string) *btcec.PrivateKey {
 	return k
 }
 
+// vNegPrivKey: the key n - k; its public key is -P (same x coordinate).
+func vNegPrivKey(k *btcec.PrivateKey) *btcec.PrivateKey {
+	var s btcec.ModNScalar
+	s.NegateVal(&k.Key)
+	return btcec.PrivKeyFromScalar(&s)
+}
+
 func vSamePrivKey(a, b *btcec.PrivateKey) bool { return a.Key.Equals(&b.Key) }
 
 func vSamePubKey(a, b *btcec.PublicKey) bool {
